@@ -124,7 +124,8 @@ def declare_vars(case, objs, containers=None):
     return V, conts
 
 
-def build_query(case, objs, containers=None, negate: int = 0, quant: Optional[str] = None) -> Built:
+def build_query(case, objs, containers=None, negate: int = 0, quant: Optional[str] = None,
+                negate_desc: int = 0, neg_form: str = "not_") -> Built:
     """Build the query described by ``case`` over the instantiated dataset ``objs``.
 
     ``negate`` wraps the whole condition in that many ``not_`` (used by C03).
@@ -142,12 +143,14 @@ def build_query(case, objs, containers=None, negate: int = 0, quant: Optional[st
             else:
                 e = build_cond(cond, V)
                 for _ in range(negate):
-                    e = not_(e)
+                    e = not_(e) if neg_form == "not_" else ~e
                 conds = [e]
         if desc == "entity":
             d = entity(sel[0], *conds)
         else:
             d = set_of(sel, *conds)
+        for _ in range(negate_desc):
+            d = not_(d)
         q = an(d) if quant == "an" else the(d)
     return Built(q, V, sel, desc, conts)
 
